@@ -6,7 +6,9 @@ CONSTANTS
   ShutdownContained = TRUE
   RunAppCatchesBase = TRUE
   MaxStartFaults = 1
-  Tree = "one"
+  Trees = {"one", "two", "nested"}
+  ExtraTreeEntries = {"Runner", "RunnerNoExplicitCleanup", "RunApp"}
+  ExtraTreeKinds = {"exc", "base"}
   KindsAllowed = {"exc", "base"}
   Entries = {"Runner", "RunnerNoExplicitCleanup", "RunApp"}
 POSTCONDITION PrintVerdicts
